@@ -282,8 +282,8 @@ func runC14(c *Ctx) {
 					continue
 				}
 				nret++
-				errV := ret.Results[1]
-				phV := ret.Results[0]
+				errV := unspill(ret, 1)
+				phV := unspill(ret, 0)
 				inUp := false
 				for _, g := range guardsAt(b) {
 					if bo, ok := g.Cond.(*ssa.BinOp); ok {
